@@ -66,7 +66,7 @@ def _read_csv_from_file(file_obj: TextIO, *, delimiter: str, has_header: bool):
     
     if not rows:
         # Header only, no data
-        return Table({col: Vector() for col in header})
+        return Table([Vector([], name=col) for col in header])
     
     # Transpose rows into columns
     num_cols = len(header)
